@@ -419,6 +419,27 @@ func (w *World) genLockingOps(r *Rand) []*ELOp {
 			ops = append(ops, &ELOp{Kind: "lock", Val: pick(r, vals).Hex(), Token: t.Hex(), Amount: w.amountFor(r, st.Tokens[t].Threshold).String(), Guards: true, Fee: fee()})
 		case k < 58 && len(vals) > 0 && len(toks) > 0:
 			v, t := pick(r, vals), pick(r, toks)
+			mode := r.Intn(4)
+			if cur := w.M.Cur; cur != nil && r.Chance(0.3) {
+				// prefer a validator the consensus layer has slashed: the contract still believes in the
+				// full amount, so "everything" asks for more than is held
+				var cand [][2]common.Address
+				for _, cv := range vals {
+					sv, ev := cur.Vals[string(cv.Bytes())], st.Vals[cv]
+					if sv == nil || ev == nil || cv == w.Vals[0].Addr() {
+						continue
+					}
+					for _, ct := range toks {
+						if l := ev.Locked[ct.Hex()]; l != nil && l.Sign() > 0 && sv.Locking.AmountOf(denomOf(ct)).BigInt().Cmp(l) < 0 {
+							cand = append(cand, [2]common.Address{cv, ct})
+						}
+					}
+				}
+				if len(cand) > 0 {
+					c := pick(r, cand)
+					v, t, mode = c[0], c[1], 0
+				}
+			}
 			if v == w.Vals[0].Addr() {
 				continue
 			}
@@ -430,7 +451,7 @@ func (w *World) genLockingOps(r *Rand) []*ELOp {
 				continue
 			}
 			amt := new(big.Int)
-			switch r.Intn(4) {
+			switch mode {
 			case 0:
 				amt.Set(have) // everything: exit
 			case 1:
